@@ -19,6 +19,7 @@ import (
 	"seehuhn.de/go/pdf/document"
 	"seehuhn.de/go/pdf/internal/fonttypes"
 	"seehuhn.de/go/pdf/nametree"
+	"seehuhn.de/go/pdf/numtree"
 	"seehuhn.de/go/pdf/outline"
 	"seehuhn.de/go/pdf/verif/internal/indep/serial"
 	"seehuhn.de/go/pdf/verif/internal/indep/strict"
@@ -228,6 +229,68 @@ func generatedHostile() []seedFile {
 		}, map[int][2]int{10: {13, 0}, 11: {13, 1}, 12: {13, 2}}))
 	}
 
+	// name and number trees: a chain of nodes each listing its only child
+	// twice (acyclic, 2^depth paths to the leaf), a kid shared by two
+	// parents, a self-cycle and a 2-cycle
+	treeDoc := func(catalogExtra string, nodes map[int]string) []byte {
+		objs := map[int]string{
+			1: "<< /Type /Catalog /Pages 2 0 R " + catalogExtra + " >>",
+			2: "<< /Type /Pages /Count 1 /Kids [ 3 0 R ] >>",
+			3: pageObj, 4: contentObj, 5: fontObj,
+		}
+		for n, v := range nodes {
+			objs[n] = v
+		}
+		return classicFile(objs, "")
+	}
+	nameLeaf := "<< /Names [ (a) 42 (b) [ 3 0 R /Fit ] ] /Limits [ (a) (b) ] >>"
+	numLeaf := "<< /Nums [ 0 << /S /D >> 5 << /S /r >> ] /Limits [ 0 5 ] >>"
+	for _, depth := range []int{20, 40, 60} {
+		nodes := map[int]string{}
+		chain := func(first int, leaf, limits string) {
+			for i := 0; i < depth; i++ {
+				n := first + i
+				lim := " /Limits " + limits
+				if i == 0 {
+					lim = ""
+				}
+				nodes[n] = fmt.Sprintf("<< /Kids [ %d 0 R %d 0 R ]%s >>", n+1, n+1, lim)
+			}
+			nodes[first+depth] = leaf
+		}
+		chain(10, nameLeaf, "[ (a) (b) ]")
+		chain(100, numLeaf, "[ 0 5 ]")
+		add(fmt.Sprintf("hostile-tree-dag-%d.pdf", depth), treeDoc("/Names << /Dests 10 0 R /EmbeddedFiles 10 0 R >> /PageLabels 100 0 R", nodes))
+	}
+	add("hostile-tree-cycles.pdf", treeDoc(
+		"/Names << /Dests 10 0 R /EmbeddedFiles 20 0 R /JavaScript 30 0 R >> /PageLabels 40 0 R /StructTreeRoot << /Type /StructTreeRoot /IDTree 30 0 R /ParentTree 50 0 R >>",
+		map[int]string{
+			// self-cycle
+			10: "<< /Kids [ 10 0 R 11 0 R 10 0 R ] >>", 11: nameLeaf,
+			// 2-cycle
+			20: "<< /Kids [ 21 0 R ] >>", 21: "<< /Kids [ 20 0 R 22 0 R 21 0 R ] /Limits [ (a) (b) ] >>", 22: nameLeaf,
+			// a kid shared by two parents
+			30: "<< /Kids [ 31 0 R 32 0 R ] >>", 31: "<< /Kids [ 33 0 R ] /Limits [ (a) (b) ] >>", 32: "<< /Kids [ 33 0 R ] /Limits [ (a) (b) ] >>", 33: nameLeaf,
+			// number trees: 2-cycle with self reference, and a shared kid
+			40: "<< /Kids [ 41 0 R ] >>", 41: "<< /Kids [ 40 0 R 41 0 R 42 0 R ] /Limits [ 0 5 ] >>", 42: numLeaf,
+			50: "<< /Kids [ 51 0 R 52 0 R 51 0 R ] >>", 51: "<< /Kids [ 53 0 R ] /Limits [ 0 5 ] >>", 52: "<< /Kids [ 53 0 R 50 0 R ] /Limits [ 0 5 ] >>", 53: numLeaf,
+		}))
+
+	// LZW with a deferred clear: one clear code, literals until all 12-bit
+	// codes are in use, then the top code of the table; as page content
+	// stream and as image XObject, for both values of /EarlyChange
+	for _, ec := range []int{0, 1} {
+		data := lzwDeferredClear(ec == 1)
+		parms := fmt.Sprintf("/Filter /LZWDecode /DecodeParms << /EarlyChange %d >>", ec)
+		add(fmt.Sprintf("hostile-lzw-deferred-clear-ec%d.pdf", ec), classicFile(map[int]string{
+			1: "<< /Type /Catalog /Pages 2 0 R >>",
+			2: "<< /Type /Pages /Count 1 /Kids [ 3 0 R ] >>",
+			3: "<< /Type /Page /Parent 2 0 R /MediaBox [0 0 200 200] /Contents 4 0 R /Resources << /Font << /F1 5 0 R >> /XObject << /Im1 6 0 R >> >> >>",
+			4: streamObj(parms, data), 5: fontObj,
+			6: streamObj("/Type /XObject /Subtype /Image /Width 60 /Height 64 /ColorSpace /DeviceGray /BitsPerComponent 8 "+parms, data),
+		}, ""))
+	}
+
 	// images: a valid 256x256 JPEG as image XObject, and the same data under
 	// filter chains in which DCTDecode is not the top filter and the filter
 	// above it rejects the decoded samples
@@ -251,6 +314,56 @@ func generatedHostile() []seedFile {
 		for _, upper := range []string{"ASCIIHexDecode", "LZWDecode", "ASCII85Decode", "RunLengthDecode"} {
 			add("hostile-dct-chain-"+upper+".pdf", imgDoc("[ /DCTDecode /"+upper+" ]"))
 		}
+	}
+	return out
+}
+
+// lzwDeferredClear writes an LZW stream from the decoder's point of view:
+// a clear code, literal codes (a small drawing, repeated) until the decoder
+// has assigned all 12-bit codes and stops adding entries, then the highest
+// code of the table, a few more literals and the end-of-data code.
+func lzwDeferredClear(early bool) []byte {
+	ec := 0
+	if early {
+		ec = 1
+	}
+	var out []byte
+	var acc uint64
+	nacc, width := uint(0), uint(9)
+	hi, overflow, full := 257, 512, false
+	put := func(code int) {
+		acc = acc<<width | uint64(code)
+		nacc += width
+		for nacc >= 8 {
+			out = append(out, byte(acc>>(nacc-8)))
+			nacc -= 8
+		}
+	}
+	step := func(code int) {
+		put(code)
+		hi++
+		if hi+ec >= overflow {
+			if width >= 12 {
+				full = true
+				hi--
+			} else {
+				width++
+				overflow <<= 1
+			}
+		}
+	}
+	put(256)
+	text := []byte("0 0 m 9 9 l S q 1 0 0 1 5 5 cm Q\n")
+	for i := 0; !full; i++ {
+		step(int(text[i%len(text)]))
+	}
+	step(hi) // the top code: legal, and not the "code == hi" special case, because nothing was added
+	for _, b := range []byte(" 1 1 m 2 2 l S\n") {
+		step(int(b))
+	}
+	put(257)
+	if nacc > 0 {
+		out = append(out, byte(acc<<(8-nacc)))
 	}
 	return out
 }
@@ -419,6 +532,20 @@ func writeStructureDoc(v pdf.Version, opt *pdf.WriterOptions, nPages int) ([]byt
 			return nil, err
 		}
 		doc.Out.GetMeta().Catalog.Names = pdf.Dict{"Dests": tref}
+	}
+	if v >= pdf.V1_3 {
+		labels := func(yield func(pdf.Integer, pdf.Object) bool) {
+			for i := 0; i < 70 && i < nPages*20; i++ {
+				if !yield(pdf.Integer(3*i), pdf.Dict{"S": pdf.Name("D"), "St": pdf.Integer(i + 1)}) {
+					return
+				}
+			}
+		}
+		lref, err := numtree.Write(doc.Out, labels)
+		if err != nil {
+			return nil, err
+		}
+		doc.Out.GetMeta().Catalog.PageLabels = lref
 	}
 	doc.Out.GetMeta().Info = &pdf.Info{Title: "C05 seed", Author: "verif"}
 	if err := doc.Close(); err != nil {
